@@ -523,6 +523,20 @@ func (m *mWorld) startOp(h *mHandle) {
 			m.c.Fault("read-error")
 		}
 	}
+	if h.exit == "complete" && h.kind != "tscan" && h.kind != "drvselect" && s.Chance(1, 8, "bad-argument") {
+		// the call is refused for its arguments (after it has taken the lock and read the
+		// schema): an error, no callback, and the lock released like on every other path
+		switch {
+		case (h.kind == "ixselect" || h.kind == "ixeq") && s.Chance(2, 3, "bad-index"):
+			rq.Index = "nosuchindex"
+		case h.kind != "columns" && s.Chance(1, 2, "bad-column"):
+			rq.Cols = []string{"id", "nosuchcolumn"}
+		default:
+			rq.Table = "nosuchtable"
+		}
+		h.exit = "bad-argument"
+		m.c.Fault("bad-argument")
+	}
 	if h.exit == "early-stop" {
 		m.c.Fault("early-stop")
 	}
@@ -720,6 +734,13 @@ func (m *mWorld) atReturn(h *mHandle, ev *agent.Event) {
 				c.Fail("wrong-rows", "I5:rows-before-error", fmt.Sprintf("%s %s: rows delivered before the injected read error are not a prefix of version %d (row %d)", h.name, h.kind, h.version, at), detail)
 			}
 		}
+		return
+	}
+	if h.exit == "bad-argument" {
+		if ev.OK || ev.Calls > 0 {
+			c.Fail("bad-argument-accepted", "bad-argument-accepted:"+h.kind, fmt.Sprintf("%s %s with an unknown table/index/column returned err=%q after %d callbacks", h.name, h.kind, ev.Err, ev.Calls), detail)
+		}
+		c.Probe("bad-argument-refused")
 		return
 	}
 	if !ev.OK {
